@@ -442,6 +442,12 @@ class Interface(object):
         if not (ns in self.imports) and self.is_valid_import(ns):
             self.imports[ns] = set()
 
+        # Give the namespace its prefix now, while the interface is being
+        # populated: get_namespace_prefix() is an unlocked check-then-act, and
+        # a prefix first allocated by the lazy WSDL build (or by a request that
+        # writes an xsi:type) changes the bytes of every later response.
+        self.get_namespace_prefix(ns)
+
         class_key = '{%s}%s' % (ns, tn)
         logger.debug('    adding class %r for %r', repr(cls), class_key)
 
